@@ -313,6 +313,19 @@ def run(tier, seed, replay):
                     RHOm = messy_unique(pattern(rng, shape, str(rng.choice(kinds))))
                     lines.append("C01.expect_dia " + json.dumps({"op": dia_json(OPm), "state": dia_json(RHOm)}))
                     expect.append(("value", complex(_expect.expect_dia(OPm, RHOm))))
+        # inner_csr / inner_op_csr: the left state as a ket and as a bra (its entries unsorted), operator rows unsorted
+        def csr_json0(C):
+            return {"rows": C.shape[0], "cols": C.shape[1], "r": csr_rows(C)}
+        OPu = build(a, "csr_unsorted", rng)
+        lv_, rv_, lv2_ = (pattern(rng, (n_, 1), str(rng.choice(["full", "random"]))) for n_ in (shape[0], shape[1], shape[1]))
+        Rc_ = _data.to(_data.CSR, _data.Dense(rv_))
+        for lb in (False, True):
+            Lc_ = build(lv_.conj().T.copy(), "csr_unsorted", rng) if lb else _data.to(_data.CSR, _data.Dense(lv_))
+            L2_ = build(lv2_.conj().T.copy(), "csr_unsorted", rng) if lb else _data.to(_data.CSR, _data.Dense(lv2_))
+            lines.append("C01.inner_op_csr " + json.dumps({"left": csr_json0(Lc_), "op": csr_json0(OPu), "right": csr_json0(Rc_)}))
+            expect.append(("value", complex(_inner.inner_op_csr(Lc_, OPu, Rc_, False))))
+            lines.append("C01.inner_csr " + json.dumps({"left": csr_json0(L2_), "right": csr_json0(Rc_)}))
+            expect.append(("value", complex(_inner.inner_csr(L2_, Rc_, False))))
         # expect_csr (ket and density-matrix loops) and expect_super_csr: operator rows unsorted, states in the library's form
         if shape[0] == shape[1]:
             _expect = importlib.import_module("qutip.core.data.expect")
